@@ -169,8 +169,14 @@ enum Place {
     UpperOut,
     BothOut,
     Exact,
+    /// outside by 100 x the documented tolerance (1e-4 of the limit): reported
+    LowerJustOut,
+    UpperJustOut,
+    /// outside by 1/100 of the documented tolerance (1e-8 of the limit): not reported
+    LowerWithinTol,
+    UpperWithinTol,
 }
-const PLACES: [Place; 5] = [Place::Inside, Place::LowerOut, Place::UpperOut, Place::BothOut, Place::Exact];
+const PLACES: [Place; 9] = [Place::Inside, Place::LowerOut, Place::UpperOut, Place::BothOut, Place::Exact, Place::LowerJustOut, Place::UpperJustOut, Place::LowerWithinTol, Place::UpperWithinTol];
 
 /// declared limits for a placement relative to the expected range; None if not representable
 fn place(lo: f64, hi: f64, p: Place) -> Option<(f64, f64)> {
@@ -185,7 +191,20 @@ fn place(lo: f64, hi: f64, p: Place) -> Option<(f64, f64)> {
         Place::UpperOut => (lo + r, hi + r.max(th)),
         Place::BothOut => (lo - r.max(tl), hi + r.max(th)),
         Place::Exact => (lo, hi),
+        // (relative to the limit itself, so only meaningful for a limit that is not zero and not so close to the other one
+        // that the 1 % inset of the other side interferes)
+        Place::LowerJustOut if lo.abs() > 1e-300 => (lo - lo.abs() * 1e-4, hi - r),
+        Place::UpperJustOut if hi.abs() > 1e-300 => (lo + r, hi + hi.abs() * 1e-4),
+        Place::LowerWithinTol if lo.abs() > 1e-300 => (lo - lo.abs() * 1e-8, hi - r),
+        Place::UpperWithinTol if hi.abs() > 1e-300 => (lo + r, hi + hi.abs() * 1e-8),
+        _ => return None,
     };
+    if matches!(p, Place::LowerJustOut | Place::LowerWithinTol) && !(l < lo) {
+        return None;
+    }
+    if matches!(p, Place::UpperJustOut | Place::UpperWithinTol) && !(h > hi) {
+        return None;
+    }
     if l.is_finite() && h.is_finite() && r > 0.0 && r.is_finite() {
         Some((l, h))
     } else {
@@ -249,7 +268,7 @@ fn build(c: &Case) -> Built {
             skipped += 1;
             continue;
         };
-        let out = !matches!(p, Place::Inside | Place::Exact) && c.conv.evaluated();
+        let out = !matches!(p, Place::Inside | Place::Exact | Place::LowerWithinTol | Place::UpperWithinTol) && c.conv.evaluated();
         let (ls, hs) = (flt(l), flt(h));
         let mut reg = |block: &str, name: String, line: u32, expected: &mut BTreeSet<(String, String, u32)>, subjects: &mut BTreeSet<(String, String, u32)>| {
             let k = (block.to_string(), name, line);
@@ -308,7 +327,7 @@ fn build(c: &Case) -> Built {
                 continue;
             }
             let Some((l, h)) = place(elo, ehi, *p) else { continue };
-            let out = !matches!(p, Place::Inside) && c.conv.evaluated();
+            let out = !matches!(p, Place::Inside | Place::LowerWithinTol | Place::UpperWithinTol) && c.conv.evaluated();
             for k in 0..5 {
                 let name = format!("CM{k}_{pi}");
                 let l0 = push(&mut t, &format!("/begin CHARACTERISTIC {name} \"\" CUBE_5 0x0 RLM{k} 0 {convname} {} {}\n", flt(il), flt(ih)));
@@ -472,11 +491,11 @@ pub fn run(tier: &str) -> Run {
     run.outcome_n("verdicts where an error is expected", exp_err);
     run.require("element limit verdicts compared", 10_000);
     run.require("verdicts where an error is expected", 3_000);
-    run.extra.insert("bounds".into(), json!({"datatypes": 11, "conversions": convs.len(), "placements": 5, "elements_per_placement": "MEASUREMENT, CHARACTERISTIC, AXIS_PTS, TYPEDEF_MEASUREMENT, TYPEDEF_CHARACTERISTIC, 5 STD_AXIS AXIS_DESCR each in CHARACTERISTIC and TYPEDEF_CHARACTERISTIC"}));
-    run.rule = "full grid datatype x conversion (coefficient grid of both signs) ; per grid point one generated module holding every limit-checked element kind at 5 placements of the declared limits (inside by 1% of the range, lower/upper/both outside by max(1% of range, 10x documented tolerance), exactly on the raw range); distinct = distinct module text; non-trivial = expected range finite".into();
+    run.extra.insert("bounds".into(), json!({"datatypes": 11, "conversions": convs.len(), "placements": 9, "elements_per_placement": "MEASUREMENT, CHARACTERISTIC, AXIS_PTS, TYPEDEF_MEASUREMENT, TYPEDEF_CHARACTERISTIC, 5 STD_AXIS AXIS_DESCR each in CHARACTERISTIC and TYPEDEF_CHARACTERISTIC"}));
+    run.rule = "full grid datatype x conversion (coefficient grid of both signs) ; per grid point one generated module holding every limit-checked element kind at 9 placements of the declared limits (inside by 1% of the range, lower/upper/both outside by max(1% of range, 10x documented tolerance), exactly on the raw range, lower / upper outside by 100x and by 1/100 of the documented tolerance); distinct = distinct module text; non-trivial = expected range finite".into();
     run.sample(json!(build(&Case { dt: 3, conv: Conv::Linear(-1.0, 0.0) }).text));
     run.assumptions = vec![
-        "the verdict between 'inside' and 'outside by 10x tolerance' is not examined (the tolerance band itself is don't-care)".into(),
+        "the verdict between 1/100 and 100 x the documented tolerance is not examined".into(),
         "RAT_FUNC with b == 0 excluded (statement: b != 0)".into(),
     ];
     run
